@@ -261,6 +261,49 @@ theorem derivation_input_injective (salt : List Nat) (a b : List Char)
     (h : salt ++ utf16le a = salt ++ utf16le b) : a = b :=
   utf16le_injective a b (List.append_cancel_left h)
 
+/-- *key derivation: 50000 SHA-1 iterations over the UTF-16LE password* (structure, hash abstract): for
+every hash function `H`, `standardConvertPasswdToKey` and the agile `convertPasswdToKey` compute the
+composition [MS-OFFCRYPTO] prescribes — H₀ = H(salt ‖ pw), Hₙ = H(le32(n−1) ‖ Hₙ₋₁) for `iterCount`
+/ `spinCount` rounds, then H(Hₙ ‖ le32 0) and the 0x36 / 0x5c derivation cut to `keyBits/8` bytes
+(standard), or H(Hₙ ‖ blockKey) cut or extended to `keyBits/8` (agile) — as a function of
+(salt, UTF-16LE password, rounds, key bits) only. -/
+theorem key_derivation_spec (H : List Nat → List Nat) (salt pw16 blockKey : List Nat) (spinCount keyBits : Nat) :
+    standardKey H salt pw16 keyBits =
+      (let hFinal := H (specIterate H iterCount (H (salt ++ pw16)) ++ le32b 0)
+       let x3 := H (xorPad hFinal 0x36) ++ H (xorPad hFinal 0x5c)
+       if keyBits / 8 > x3.length then none else some (x3.take (keyBits / 8))) ∧
+    agileKey H salt pw16 blockKey spinCount keyBits =
+      (let key := H (specIterate H spinCount (H (salt ++ pw16)) ++ blockKey)
+       if key.length < keyBits / 8 then key ++ List.replicate 0x36 0
+       else if key.length > keyBits / 8 then key.take (keyBits / 8) else key) := by
+  constructor
+  · unfold standardKey standardHFinal; rw [spin_eq_spec]
+  · unfold agileKey; rw [spin_eq_spec]
+
+/-- *gates access* (one step further than `derivation_input_injective`): if the hash is injective
+(collision freeness, the assumption recorded in the trusted base) then for a fixed salt two different
+passwords give different final hashes `hFinal` after all `iterCount` rounds — every round and the
+final block-index hash preserve the difference. The cut of X1‖X2 to the key size and "a different key
+yields no zip" remain assumptions. -/
+theorem derived_hash_separates_passwords (H : List Nat → List Nat) (hH : Function.Injective H)
+    (salt : List Nat) (a b : List Char)
+    (h : standardHFinal H salt (utf16le a) = standardHFinal H salt (utf16le b)) : a = b :=
+  utf16le_injective a b (standardHFinal_injective H hH salt _ _ h)
+
+/-- *opening with a wrong or missing password returns an error, never content* (control flow of
+`OpenReader`): a `*File` is returned only if the input was not a compound file or `Decrypt`
+succeeded, **and** the resulting bytes are a zip, **and** the package was read; a failing `Decrypt`
+is reported as ErrWorkbookFileFormat; bytes that are not a zip as ErrWorkbookPassword when a
+password was supplied and as the zip error otherwise — in particular the wrong-password case
+(decrypts to garbage) and the missing-password case never return a file. -/
+theorem open_gates_access (i : OpenIn) :
+    ((openReader i).1 = true → (i.hasOle = true → i.decOk = true) ∧ i.zipOk = true ∧ i.readOk = true) ∧
+    (i.hasOle = true → i.decOk = false → openReader i = (false, some .fileFormat)) ∧
+    (i.decOk = true → i.zipOk = false → i.pwGiven = true → openReader i = (false, some .password)) ∧
+    (i.decOk = true → i.zipOk = false → i.pwGiven = false → openReader i = (false, some .zipErr)) := by
+  obtain ⟨o, d, z, p, r, q⟩ := i
+  cases o <;> cases d <;> cases z <;> cases p <;> cases r <;> cases q <;> simp [openReader]
+
 /-- the hypotheses of `agile_encrypt_decrypt` are satisfiable -/
 theorem cbc_lawful_exists : ∃ c : Cbc, c.Lawful := ⟨⟨fun _ x => x, fun _ x => x⟩, fun _ _ _ => ⟨rfl, rfl⟩⟩
 
